@@ -493,13 +493,16 @@ func TestVerifC07(t *testing.T) {
 		"grammar-generated `dns { upstream routing{request,response} }` sections (text) x questions/answers derived from the program constants (case, trailing dot, boundary qtypes, boundary addresses); "+
 			"level 1 compares Dns.RequestSelect/ResponseSelect, level 2 the DnsController flow (upstream call sequence, reply, reject with primed cache, bounded re-asks, same name asked again with another qtype) with the reference interpreter; "+
 			"level 2f injects a fault (generation cancelled, client cancelled, 5 s work budget expired) from inside the scripted upstream as it returns an answer the response rules reject or re-ask, then retries on the same controller and on the ReuseForReload successor: no client may be given records the reference walk does not end in; "+
-			"distinct = (level, shape of the deciding rule or fallback kind, answering-upstream kind), for level 2 (final verdict, number of upstream calls, request decision kind), for level 2f (fault kind, call struck, its response decision, final verdict); "+
+			"level 2t rewrites the upstreams to every documented scheme (udp, tcp, tcp+udp/udp+tcp, tls, https, quic, h3/http3) and scripts each transport attempt at an upstream (answered, refused, timed out, truncated) so that answers of two-transport upstreams arrive over the second attempt: the upstreams that answered, in order, and the reply must be the reference walk's, whatever transport delivered an answer; "+
+			"level 1f builds response programs whose ip() prefixes are all written in one family (IPv6 form incl. ::/0, ::ffff:0:0/96 and IPv4-mapped literals; IPv4 form) and probes them with A and AAAA answers at the first/last address of every prefix, its neighbours and their IPv4 / IPv4-mapped twins; "+
+			"distinct = (level, shape of the deciding rule or fallback kind, answering-upstream kind), for level 2 (final verdict, number of upstream calls, request decision kind), for level 2f (fault kind, call struck, its response decision, final verdict), for level 2t (final verdict, calls, first/second transport, all upstreams answerable or not), for level 1f (written family of the prefixes, record type and family of the answer, deciding rule shape); "+
 			"non-trivial = decided at a non-first rule, by a negated or multi-condition rule, or at the fallback of a program with rules; level 2: every walk")
 	m.SetFloor(150)
 	m.Assume("reference interpreter verifkit.RefDnsRequest/RefDnsResponse/RefDnsWalk is the documented first-match semantics (docs/en/configuration/dns.md); internal selectors sub/node/subnode never decide an ordinary question",
 		"the bound on upstream calls per question is dae's own constant MaxDnsLookupDepth (calls <= MaxDnsLookupDepth; chains that finish within it must complete)",
 		"level 2 runs NewDnsController + dns.New with fake forwarders installed through the package variable dnsForwarderFactory and a fixed BestDialerChooser; no sockets, no bpf callbacks",
 		"domain pattern matching itself (C11) is exercised only with the small pattern pool of the routing generator",
+		"level 2t: the scripted dialer chooser returns the transport docs/en/configuration/dns.md documents for the scheme of the upstream object it is given (tcp/tls/https: TCP; udp/quic/h3: UDP; tcp+udp: UDP, for some questions TCP); a refused / timed-out / truncated attempt is reported to dae the way its own transports report it (net.OpError, ErrDNSTruncated with the TC=1 message); whether dae tries another transport after a failed attempt is not judged",
 		"level 2f: the fake forwarder fails a call made on an already ended context the way a real transport does; the work context of a resolution is the context dialSend hands to BestDialerChooser; while a fault lasts an error or no reply is always acceptable, only records a client is given are judged")
 
 	r := vk.NewRand(0xC07)
@@ -514,8 +517,17 @@ func TestVerifC07(t *testing.T) {
 		if n, ok := verifC07ByHost.Load(upstream.Hostname); ok {
 			return &verifC07Forwarder{n: n.(*verifC07Net), host: upstream.Hostname}, nil
 		}
+		if tn := verifC07TCur; tn != nil {
+			// level 2t: the fake upstream tells the attempts at one upstream apart by transport
+			return &verifC07TForwarder{n: tn, host: upstream.Hostname, scheme: string(upstream.Scheme), l4: string(dialArg.l4proto)}, nil
+		}
 		return &verifC07Forwarder{n: verifC07Cur, host: upstream.Hostname}, nil
 	}
+	// levels 2t and 1f draw from their own streams: the cases of the other levels do not move
+	rT := vk.NewRand(0xC0771)
+	rF := vk.NewRand(0xC0772)
+	ntrans := vk.Scale(6, 10)
+	var wall2t, wall1f time.Duration // informational only
 
 	// the work budget of a resolution (5 s, dae's own constant) runs out while an upstream is
 	// answering: a few such cases run beside the main loop, each on its own controller and its own
@@ -718,6 +730,18 @@ func TestVerifC07(t *testing.T) {
 			verifC07FaultCase(m, r, p, b, pl, mode, n, verifC07Req)
 		}
 
+		// ---------- level 2t: the same walk when answers arrive over another transport ----------
+		t2t := time.Now()
+		verifC07Transport(m, rT, p, qs, ntrans)
+		wall2t += time.Since(t2t)
+
+		// ---------- level 1f: ip() prefixes written in one family, answers of the other ----------
+		if i%3 == 0 {
+			t1f := time.Now()
+			verifC07Family(m, rF, i/3)
+			wall1f += time.Since(t1f)
+		}
+
 		if m.WantSample() && len(qs) > 0 {
 			ref, _ := vk.RefDnsRequest(p, qs[0])
 			m.Sample(map[string]any{"text": p.Text(), "qname": qs[0].Name, "qtype": qs[0].Qtype, "request_reference": ref})
@@ -725,6 +749,8 @@ func TestVerifC07(t *testing.T) {
 	}
 	bg.Wait()
 	m.Set("max_dns_lookup_depth", MaxDnsLookupDepth)
+	m.Set("info_wall_ms_level_2t", wall2t.Milliseconds())
+	m.Set("info_wall_ms_level_1f", wall1f.Milliseconds())
 	m.Require("l1_request_decided_by_fallback", "l1_request_decided_by_nonfirst_rule", "l1_request_reject",
 		"l1_request_decided_after_internal_rule",
 		"l1_response_decided_by_fallback", "l1_response_decided_by_nonfirst_rule",
@@ -735,6 +761,8 @@ func TestVerifC07(t *testing.T) {
 		"l2f_fault_while_answer_to_be_rejected", "l2f_fault_while_answer_to_be_reasked",
 		"l2f_mode_generation-cancelled", "l2f_mode_client-cancelled", "l2f_mode_budget-expired",
 		"l2f_judged_retry-on-retired-generation", "l2f_judged_successor-generation", "l2f_judged_retry-after-budget-expired", "l2f_judged_retry-after-client-cancelled")
+	m.Require(verifC07TRequired...)
+	m.Require(verifC07FRequired...)
 	m.Done(t)
 }
 
